@@ -30,7 +30,7 @@ def check_reports(b, hist, spec, data, fee_name):
     bt = rt.bt()
     out = []
     root = b.strategy
-    rn = root.full_name
+    rn = R.node_path(root)
     labels = hist[rn]["values"][0]
     fi = bool(root.fixed_income)
     base_series = "notional_values" if fi else "values"
@@ -220,14 +220,14 @@ def replay_transactions(b, hist, spec, data, tx, info):
     kids = [bt.Security(tk, multiplier=mult[tk]) for tk in tickers]
     s = bt.Strategy("replay", [bt.algos.ReplayTransactions("transactions")], kids)
     ad = {"transactions": tx, "bidoffer": pd.DataFrame(0.0, index=data.index, columns=data.columns)}
-    flat = all(hist[n]["__parent__"] == b.strategy.full_name for n in secs)
+    flat = all(hist[n]["__parent__"] == R.node_path(b.strategy) for n in secs)
     fee = T.fee_fn(spec.get("fee")) if flat else None
     try:
         b2 = bt.Backtest(s, data, initial_capital=float(spec.get("capital", 1e6)), commissions=fee, integer_positions=False, progress_bar=False, additional_data=ad)
         b2.run()
     except Exception as e:
         return [{"rule": "replay_raises", "expected": "replay completes", "observed": rt.describe(e)}]
-    labels = hist[b.strategy.full_name]["values"][0]
+    labels = hist[R.node_path(b.strategy)]["values"][0]
     for tk in tickers:
         p2 = dict(zip([str(x) for x in b2.strategy[tk].positions.index], [float(x) for x in b2.strategy[tk].positions.values]))
         for lab in labels:
@@ -237,7 +237,7 @@ def replay_transactions(b, hist, spec, data, tx, info):
                 break
     fl = (spec.get("stack") or {}).get("flow")
     if flat and fl is None and not out:
-        v1 = dict(zip(labels, hist[b.strategy.full_name]["values"][1]))
+        v1 = dict(zip(labels, hist[R.node_path(b.strategy)]["values"][1]))
         v2 = dict(zip([str(x) for x in b2.strategy.values.index], [float(x) for x in b2.strategy.values.values]))
         for lab in labels:
             if not close(v2.get(lab, float("nan")), v1[lab], abs(v1[lab])):
@@ -271,7 +271,7 @@ def bankrupt_case(spec):
     hist = R.run_histories(b)
     sp = dict(spec, capital=spec.get("capital", 1024.0), stack={})
     viols, tx = check_reports(b, hist, sp, data, spec.get("fee"))
-    neg = any(v < 0 for v in hist[b.strategy.full_name]["values"][1])
+    neg = any(v < 0 for v in hist[R.node_path(b.strategy)]["values"][1])
     return ("ok", viols, 1 if neg else 0)
 
 
@@ -293,6 +293,7 @@ def run(ctx):
     for st in R.stacks("quick")[:12]:
         extra.append({"tree": "flat_eager_m", "stack": st, "data": "d12", "alpha": "exact", "integer": False, "capital": 1e6, "rng": 0, "fee": None, "spread": 0.5})
         extra.append({"tree": "nested", "stack": st, "data": "d12", "alpha": "exact", "integer": False, "capital": 1e6, "rng": 0, "fee": None, "spread": 0.5})
+        extra.append({"tree": "deep_dup", "stack": st, "data": "d25", "alpha": "exact", "integer": False, "capital": 1e6, "rng": 0, "fee": "propdec", "spread": None})
     for g in ("daily", "weekly"):
         for w in ({"a": 0.5, "b": 0.5}, {"a": 0.75, "b": -0.25}):
             extra.append({"tree": "fi_hedge", "stack": {"gate": g}, "fi_weights": w, "data": "d12", "alpha": "exact", "late": False, "integer": False, "capital": 0.0, "rng": 0, "fee": None, "spread": None, "mult_d": 2})
